@@ -109,7 +109,11 @@ pub(crate) fn generate_pipeline(
             });
         }
 
-        let struct_name = ARGUMENT_BUFFER_NAMES[i];
+        // Only the names for the first bind groups are reserved
+        let struct_name = match ARGUMENT_BUFFER_NAMES.get(i) {
+            Some(struct_name) => *struct_name,
+            None => return Err(GenerateError::TooManyBindGroups),
+        };
         let sd = ast::StructDefinition {
             name: Located::none(String::from(struct_name)),
             base_types: Vec::new(),
